@@ -29,7 +29,11 @@ KINDS = [
     ("dup.words.x", b"eps\neps\nEPS\n"),
     ("trailing", b"zeta \neta"),
     (os.path.join("sub", "dir", "nested.api"), b"theta\n\niota\n"),
+    (os.path.join("sub2", "lf.name"), b"kappa\n"),  # same file name as the top-level lf.name
+    (".dot.file", b"lam\n"),
+    (os.path.join(".hid", "inner"), b"mu\n"),
 ]
+DIR_NAMES = ["c18kw", "c18[v2]kw", "c18*kw?", "c18 kw"]
 
 
 def describe(tier):
@@ -41,7 +45,7 @@ def describe(tier):
             + ("all 2^16 include subsets; " if tier == "thorough" else "") +
             "oracle: the (module, function) set held by get_analyzers / build_registry equals the expected one, each function exactly once. Keywords: "
             f"ALL {2 ** len(KINDS)} subsets of {len(KINDS)} file kinds (empty, blank lines only, LF, CRLF, duplicates and case variants, trailing space, nested "
-            "sub-directory, dots in names) are materialised; every non-decoder registry entry is observed behaviourally on a probe text that contains every "
+            "sub-directory, dots in names, the same file name in two directories, dot-prefixed files and directories; the directory itself named with glob characters / blanks) are materialised; every non-decoder registry entry is observed behaviourally on a probe text that contains every "
             "word: the (type, value) pairs it reports must be exactly (file name, word) for the non-blank lines of one file, one entry per non-empty file; the "
             "decoder part of a registry built with a custom directory must equal the default decoder part. The shipped keyword directory is walked "
             "independently and compared the same way. states = distinct configurations, transitions = registry entries examined, traces = registries "
@@ -77,7 +81,7 @@ def plan(tier, seed):
     units += [("single-pair", "include"), ("single-pair", "exclude"), ("iterables",), ("default",)]
     if tier == "thorough":
         units += [("all-include", i) for i in range(16)]
-    units += [("kwdirs", i) for i in range(8)]
+    units += [("kwdirs", i) for i in range(16)]
     return units
 
 
@@ -219,8 +223,8 @@ def run_unit(unit, rec):
             check_decoders(rec, astd, inc, None, lambda: mdreg.get_analyzers(include=inc), {"kind": "analyzers", "include": inc, "exclude": None})
         rec.sample({"all_include_subsets_mod16": unit[1]})
     elif kind == "kwdirs":
-        for mask in range(unit[1], 2 ** len(KINDS), 8):
-            tmp = tempfile.mkdtemp(prefix="c18kw")
+        for mask in range(unit[1], 2 ** len(KINDS), 16):
+            tmp = tempfile.mkdtemp(prefix=DIR_NAMES[mask % len(DIR_NAMES)])
             try:
                 for i, (name, content) in enumerate(KINDS):
                     if mask >> i & 1:
@@ -258,7 +262,7 @@ def replay(w, rec):
             kwargs["exclude"] = exc
         check_decoders(rec, astd, inc, exc, lambda: fn(**kwargs), w)
     elif k == "kwdir":
-        run_unit(("kwdirs", w["mask"] % 8), rec)
+        run_unit(("kwdirs", w["mask"] % 16), rec)
     elif k == "default":
         run_unit(("default",), rec)
     elif k == "iterable":
